@@ -195,16 +195,20 @@ def gen_case_abort(seed, i):
     n = r.randint(1, 4)
     nrec = r.randint(2, 8)
     k = r.randrange(n)
-    line = r.randint(1, nrec - 1)
+    # the aborting member scans from line 1 and meets a bad cell on `line`, or (one case in four) scans from
+    # line 0, where the header cell "a" is the bad cell
+    line = r.randint(1, nrec - 1) if r.random() < 0.75 else 0
     recs = [["a", "b"]] + [[("x" if j == line else str(j)), r.choice(["p", "q"])] for j in range(1, nrec)]
     members = []
     for j in range(n):
         if j == k:
             mp = r.choice(['add(#a, 1) push("seen", line_number())', 'push("seen", line_number()) @t = add(#a, 1)',
                            'yes() -> multiply(#a, 2)'])
+            scan = "*" if line == 0 else "1*"
         else:
             mp = r.choice(['#b == "p" push("s", #a)', "yes()", "@c = count()", 'print("l $.csvpath.line_number")'])
-        members.append({"match": mp, "ident": r.choice([None, f"m{j}"]), "scan": "1*"})
+            scan = r.choice(["1*", "1*", "*"])
+        members.append({"match": mp, "ident": r.choice([None, f"m{j}"]), "scan": scan})
     method = r.choice(["collect_paths", "fast_forward_paths", "next_paths", "collect_by_line", "next_by_line", "fast_forward_by_line"])
     follow = r.choice(["collect_paths", "collect_by_line", "fast_forward_paths"])
     return {"recs": recs, "members": members, "k": k, "line": line, "method": method, "follow": follow}
